@@ -37,7 +37,7 @@ def main():
     if st.stdout.strip():
         print("refusing: /repo has uncommitted changes:\n" + st.stdout)
         return 2
-    ap = sh("git -C /repo apply --whitespace=nowarn %s" % os.path.join(d, "patch.diff"))
+    ap = sh("git -C /repo apply --whitespace=nowarn %s" % os.path.abspath(os.path.join(d, "patch.diff")))
     if ap.returncode != 0:
         print("patch does not apply:", ap.stderr[:500])
         return 2
